@@ -1467,6 +1467,14 @@ class Interp:
                 return lambda *a, **k: []
             if base[1] == "dict" and attr == "empty":
                 return lambda *a, **k: {}
+            if base[1] == "object" and attr == "__setattr__":
+                # object.__setattr__(self, name, value): the frozen-dataclass idiom
+                def _set(obj, name, value):
+                    if not isinstance(obj, SymObj):
+                        raise OutsideFragment("object.__setattr__ on a non-instance")
+                    obj.attrs[name] = value
+                    return None
+                return _set
         if isinstance(base, ModuleRef):
             if base.name == "np":
                 if attr in ("linalg", "random", "testing"):
